@@ -126,13 +126,13 @@ func genCrash(g *Gen) {
 					l.drain()
 					flush()
 					rw.emit("remove", "remove "+w)
+					removed = w
+					l.wallets = l.wallets[1:] // no new addresses / payments for it from here on
 					if g.Rng.Intn(2) == 0 {
 						l.extend() // a block arrives between marking and the removal run
 						flush()
 					}
 					rw.emit("removerun", "removerun "+w)
-					removed = w
-					l.wallets = l.wallets[1:]
 				}
 			default:
 				l.processOne()
